@@ -34,6 +34,10 @@ type Case struct {
 	Y     []string   `json:"y"`
 	Seed  uint64     `json:"seed"`
 	Frags []int      `json:"frags,omitempty"`
+	// Reuse: the session is run twice on fresh connections and the named
+	// party ("evaluator", "garbler", "both") keeps its ot.OT object, as the
+	// streaming evaluator loop of apps/garbled does.
+	Reuse string `json:"reuse,omitempty"`
 }
 
 func hexOf(v *big.Int) string { return "0x" + v.Text(16) }
@@ -53,6 +57,9 @@ func genCase(t *rapid.T) Case {
 	n := rapid.IntRange(0, 3).Draw(t, "nfrags")
 	for i := 0; i < n; i++ {
 		cs.Frags = append(cs.Frags, rapid.SampledFrom([]int{0, 1, 3, 16, 17, 4095}).Draw(t, "frag"))
+	}
+	if rapid.IntRange(0, 7).Draw(t, "reuse") == 0 {
+		cs.Reuse = rapid.SampledFrom([]string{"evaluator", "evaluator", "garbler", "both"}).Draw(t, "reuseparty")
 	}
 	return cs
 }
@@ -132,58 +139,80 @@ func run(cs Case) ev.Outcome {
 		return ev.Fail("compute-error", "%v", err)
 	}
 
-	// Streaming session.
-	d := xport.NewDuplex(cs.Frags, cs.Frags)
-	gConn, eConn := d.Conns()
-	params := utils.NewParams()
-	params.Config = &env.Config{Rand: gen.NewDRBG(cs.Seed, 1)}
-	gOT := ot.NewCO(gen.NewDRBG(cs.Seed, 2))
-	eOT := ot.NewCO(gen.NewDRBG(cs.Seed, 3))
+	// Streaming session(s).
+	sessions := 1
+	switch cs.Reuse {
+	case "":
+	case "evaluator", "garbler", "both":
+		sessions = 2
+	default:
+		return ev.Outcome{Skip: "unknown reuse party"}
+	}
+	var gOT, eOT ot.OT
 	var gIO, eIO circuit.IO
-	res := xport.RunPair(d,
-		func() ([]*big.Int, error) {
-			io, vals, err := compiler.New(params).Stream(gConn, gOT, "{data}",
-				strings.NewReader(src), xs, inputSizes)
-			gIO = io
-			return vals, err
-		},
-		func() ([]*big.Int, error) {
-			io, vals, err := circuit.StreamEvaluator(eConn, eOT, ys, nil, false)
-			eIO = io
-			return vals, err
-		}, 10*time.Second, 180*time.Second)
-	d.Close()
+	for sn := 0; sn < sessions; sn++ {
+		d := xport.NewDuplex(cs.Frags, cs.Frags)
+		gConn, eConn := d.Conns()
+		params := utils.NewParams()
+		params.Config = &env.Config{Rand: gen.NewDRBG(cs.Seed, 1+100*uint64(sn))}
+		if gOT == nil || !(cs.Reuse == "garbler" || cs.Reuse == "both") {
+			gOT = ot.NewCO(gen.NewDRBG(cs.Seed, 2+100*uint64(sn)))
+		}
+		if eOT == nil || !(cs.Reuse == "evaluator" || cs.Reuse == "both") {
+			eOT = ot.NewCO(gen.NewDRBG(cs.Seed, 3+100*uint64(sn)))
+		}
+		g, e := gOT, eOT
+		res := xport.RunPair(d,
+			func() ([]*big.Int, error) {
+				io, vals, err := compiler.New(params).Stream(gConn, g, "{data}",
+					strings.NewReader(src), xs, inputSizes)
+				gIO = io
+				return vals, err
+			},
+			func() ([]*big.Int, error) {
+				io, vals, err := circuit.StreamEvaluator(eConn, e, ys, nil, false)
+				eIO = io
+				return vals, err
+			}, 10*time.Second, 180*time.Second)
+		d.Close()
 
+		desc := fmt.Sprintf("x=%v y=%v", xs, ys)
+		pre := ""
+		if sessions > 1 {
+			desc = fmt.Sprintf("session %d of %d (%s keeps its OT object): %s", sn+1, sessions, cs.Reuse, desc)
+			pre = "reuse/"
+		}
+		switch {
+		case res.TimedOut:
+			return ev.Outcome{Skip: "time budget exhausted (inconclusive)"}
+		case res.A.Panic != "":
+			return ev.Fail(pre+"stream-garbler/panic/"+xport.PanicSiteOf(res.A.Panic),
+				"%s: streaming garbler panicked: %s\n%s", desc, res.A.Panic, src)
+		case res.B.Panic != "":
+			return ev.Fail(pre+"stream-evaluator/panic/"+xport.PanicSiteOf(res.B.Panic),
+				"%s: streaming evaluator panicked: %s\n%s", desc, res.B.Panic, src)
+		case res.Stalled:
+			return ev.Fail(pre+"stream/stall", "%s: streaming session stalled\n%s", desc, src)
+		case res.A.Err != nil || res.B.Err != nil:
+			return ev.Fail(pre+"stream/error", "%s: garbler err=%v, evaluator err=%v\n%s",
+				desc, res.A.Err, res.B.Err, src)
+		}
+		if len(res.A.Vals) != len(want) || len(res.B.Vals) != len(want) {
+			return ev.Fail(pre+"stream/arity", "%s: streaming returned %d/%d values, whole circuit %d\n%s",
+				desc, len(res.A.Vals), len(res.B.Vals), len(want), src)
+		}
+		for i := range want {
+			if res.A.Vals[i].Cmp(res.B.Vals[i]) != 0 {
+				return ev.Fail(pre+"stream/parties-disagree", "%s: output %d: garbler 0x%s, evaluator 0x%s\n%s",
+					desc, i, res.A.Vals[i].Text(16), res.B.Vals[i].Text(16), src)
+			}
+			if res.A.Vals[i].Cmp(want[i]) != 0 {
+				return ev.Fail(pre+"stream-vs-whole/"+featSig(cs), "%s: output %d: streaming 0x%s, whole circuit 0x%s\n%s",
+					desc, i, res.A.Vals[i].Text(16), want[i].Text(16), src)
+			}
+		}
+	}
 	desc := fmt.Sprintf("x=%v y=%v", xs, ys)
-	switch {
-	case res.TimedOut:
-		return ev.Outcome{Skip: "time budget exhausted (inconclusive)"}
-	case res.A.Panic != "":
-		return ev.Fail("stream-garbler/panic/"+xport.PanicSiteOf(res.A.Panic),
-			"%s: streaming garbler panicked: %s\n%s", desc, res.A.Panic, src)
-	case res.B.Panic != "":
-		return ev.Fail("stream-evaluator/panic/"+xport.PanicSiteOf(res.B.Panic),
-			"%s: streaming evaluator panicked: %s\n%s", desc, res.B.Panic, src)
-	case res.Stalled:
-		return ev.Fail("stream/stall", "%s: streaming session stalled\n%s", desc, src)
-	case res.A.Err != nil || res.B.Err != nil:
-		return ev.Fail("stream/error", "%s: garbler err=%v, evaluator err=%v\n%s",
-			desc, res.A.Err, res.B.Err, src)
-	}
-	if len(res.A.Vals) != len(want) || len(res.B.Vals) != len(want) {
-		return ev.Fail("stream/arity", "%s: streaming returned %d/%d values, whole circuit %d\n%s",
-			desc, len(res.A.Vals), len(res.B.Vals), len(want), src)
-	}
-	for i := range want {
-		if res.A.Vals[i].Cmp(res.B.Vals[i]) != 0 {
-			return ev.Fail("stream/parties-disagree", "%s: output %d: garbler 0x%s, evaluator 0x%s\n%s",
-				desc, i, res.A.Vals[i].Text(16), res.B.Vals[i].Text(16), src)
-		}
-		if res.A.Vals[i].Cmp(want[i]) != 0 {
-			return ev.Fail("stream-vs-whole/"+featSig(cs), "%s: output %d: streaming 0x%s, whole circuit 0x%s\n%s",
-				desc, i, res.A.Vals[i].Text(16), want[i].Text(16), src)
-		}
-	}
 	gs, es, ws := sigOf(gIO), sigOf(eIO), sigOf(circ.Outputs)
 	if fmt.Sprint(gs) != fmt.Sprint(es) || fmt.Sprint(gs) != fmt.Sprint(ws) {
 		return ev.Fail("stream/output-types", "%s: output types differ: garbler %v, evaluator %v, whole circuit %v\n%s",
@@ -205,6 +234,9 @@ func run(cs Case) ev.Outcome {
 	}
 
 	classes := []string{}
+	if cs.Reuse != "" {
+		classes = append(classes, "ot-object-reused-by="+cs.Reuse)
+	}
 	nontrivial := false
 	if cs.Prog != nil {
 		ssa := ssaListing(src, inputSizes)
